@@ -170,3 +170,15 @@ func LenOf(v Value) (*Lin, bool) {
 	}
 	return nil, false
 }
+
+// Deref loads the value a pointer to a scalar cell points to.
+func Deref(p *Path, v Value) Value {
+	ptr, ok := v.(*Ptr)
+	if !ok {
+		return v
+	}
+	if ptr.Obj.Kind == OCell {
+		return ptr.Obj.Cell
+	}
+	return &Agg{Obj: ptr.Obj}
+}
